@@ -122,6 +122,17 @@ pub fn gen_frame(rng: &mut Rng, k: &Kind, compressed: bool, dirt: u8, rows_hint:
             let cap = ((maxlen - base) / 4).min(255);
             let n = rows_hint.unwrap_or_else(|| match rng.below(5) { 0 => 0, 1 => 1, 2 => cap.min(120), _ => rng.below(cap.min(130) as u64 + 1) as usize }).min(cap);
             let mut ws: Vec<u32> = (0..n).map(|i| (rng.next() as u32 & 0xFFFF_FF00) | (i as u32 & 0xFF) | 0x0100_0000).collect();
+            // ids that look like text: three alphanumeric bytes and a zero (the shape of a built-in car name), built-in names themselves, and id 0
+            if n >= 1 && rng.chance(1, 3) {
+                const AL: &[u8] = b"ABCDEFGHIJKLMNOPQRSTUVWXYZabcdefghijklmnopqrstuvwxyz0123456789";
+                const CARS: &[&[u8; 3]] = &[b"XFG", b"XRG", b"XRT", b"RB4", b"FXO", b"LX4", b"LX6", b"MRT", b"UF1", b"RAC", b"FZ5", b"FOX", b"XFR", b"UFR", b"FO8", b"FXR", b"XRR", b"FZR", b"BF1", b"FBM"];
+                let k = 1 + rng.below(3.min(n as u64)) as usize;
+                for j in 0..k {
+                    let at = rng.below(n as u64) as usize;
+                    let w = match (rng.below(4), j) { (0, 0) => 0u32, (1, _) => { let c = CARS[rng.below(CARS.len() as u64) as usize]; u32::from_le_bytes([c[0], c[1], c[2], 0]) }, _ => u32::from_le_bytes([AL[rng.below(62) as usize], AL[rng.below(62) as usize], AL[rng.below(62) as usize], 0]) };
+                    if !ws.contains(&w) { ws[at] = w; m.notes.push("text-shaped word"); }
+                }
+            }
             if dirt >= 1 && n >= 2 && rng.chance(1, 6) { ws[n - 1] = ws[0]; m.canonical = false; m.notes.push("duplicate word"); }
             if n > 120 { m.notes.push("count>cap"); m.canonical = false; }
             m.rows = n; (n as u64, ws.iter().flat_map(|w| w.to_le_bytes()).collect())
